@@ -4,6 +4,7 @@ import (
 	"fmt"
 	"math"
 	"math/big"
+	"os"
 	"strconv"
 	"strings"
 	"testing"
@@ -26,7 +27,7 @@ type C12Case struct {
 	Sep   bool    `json:"sep,omitempty"`
 	P     uint    `json:"p"`
 	M     uint8   `json:"m"`
-	// Strict: no allowance for known finding F-43 (replay files of that finding only)
+	// Strict: (historic: replay files of former finding F-43 carry it; there is no allowance to switch off any more)
 	Strict bool `json:"strict,omitempty"`
 }
 
@@ -532,12 +533,11 @@ func checkC12(c C12Case, o *h.Obs) *h.Fail {
 	return c12Faithful(c, o, got, model.FromRat(r, uint64(wantPrec)+c12ZoneDigits+3), wantPrec, c.S)
 }
 
-// c12ZoneDigits: the zone of known finding F-43. Literals that are scaled by a rounded power of two (binary exponents
-// beyond the window in which the scaling is exact) are rounded twice, the first time at precision+19 digits. When the
-// exact value lies within 10^-(precision+16) (relative) of a number of `precision` digits, the first rounding can put
-// it on the other side of that number and a directed mode then returns the neighbour beyond it: more than one unit
-// away from the exact value, by a hair. Outside that zone a result must be one of the two neighbours of the exact
-// value ("within one unit in the last place"); inside it, the neighbour beyond the near number is tolerated too.
+// c12ZoneDigits: how many digits beyond the precision the labels look at (the window in which the double rounding of
+// former finding F-43 showed: literals scaled by a power of two rounded to precision+19 digits and rounded again came
+// out on the far side of a number of `precision` digits when the exact value lay closer than about 10^-(precision+17)
+// to it). There is no tolerance any more: a result must be one of the two neighbours of the exact value ("within one
+// unit in the last place").
 const c12ZoneDigits = 16
 
 // c12Faithful: ex holds the exact value cut after at least precision+c12ZoneDigits+1 digits (plus sticky).
@@ -545,25 +545,17 @@ func c12Faithful(c C12Case, o *h.Obs, got h.Snap, ex model.X, wantPrec uint, wha
 	lo, _ := model.Round(ex, uint64(wantPrec), model.ToZero)
 	hi, _ := model.Round(ex, uint64(wantPrec), model.AwayFromZero)
 	g := got.Val()
-	if g.Equal(lo) || g.Equal(hi) {
+	if os.Getenv("VERIF_C12_EXACT") != "" {
+		// development aid, not part of any registered command: demand the correctly rounded value and a truthful
+		// accuracy (more than the property asks of these literals)
+		want, wacc := model.Round(ex, uint64(wantPrec), model.Mode(c.M))
+		if !g.Equal(want) || model.Acc(got.Acc) != wacc {
+			return h.Failf("exact-mode", "%s(%q, %d) at precision %d %v: got %v (%v), correctly rounded %v (%v)", c.Entry, h.FirstN(what, 200), c.Base, wantPrec, model.Mode(c.M), g, model.Acc(got.Acc), want, wacc)
+		}
 		return nil
 	}
-	tail := ex.Digits
-	if uint(len(tail)) > wantPrec {
-		tail = tail[wantPrec:]
-	} else {
-		tail = ""
-	}
-	for len(tail) < c12ZoneDigits {
-		tail += "0"
-	}
-	tail = tail[:c12ZoneDigits]
-	want, _ := model.Round(ex, uint64(wantPrec), model.Mode(c.M))
-	if !c.Strict && (strings.Trim(tail, "0") == "" || strings.Trim(tail, "9") == "") {
-		if dist := model.UlpDistance(g, want, uint64(wantPrec)); dist.Cmp(big.NewRat(1, 1)) <= 0 {
-			o.Label("zone:F-43-double-rounding-next-to-a-representable-number")
-			return nil
-		}
+	if g.Equal(lo) || g.Equal(hi) {
+		return nil
 	}
 	return h.Failf("ulp", "%s(%q, %d) at precision %d %v: got %v; the exact value %v lies between %v and %v", c.Entry, h.FirstN(what, 200), c.Base, wantPrec, model.Mode(c.M), g, ex, lo, hi)
 }
@@ -628,7 +620,7 @@ func checkC12Mixed(c C12Case, o *h.Obs, got h.Snap, err error, wantPrec uint) *h
 	return c12Faithful(c, o, got, ex, wantPrec, c.S)
 }
 
-const ruleC12 = "rapid-generated inputs of three kinds. (dec) base-10 literals of the documented grammar with the value known by construction: sign, digits split around the point anywhere, leading/trailing zeros, '_' separators in legal positions, e/E exponents over the whole int32 range and beyond, up to 600 (quick) / 3000 (thorough) digits with rounding patterns; through Parse, SetString, ParseDecimal, UnmarshalText and Scan (fmt.Sscan with surrounding blanks; fmt.Sscanf with the literal directly followed by -, +, :, comma or / and a second number); receiver precision 0 or 1..80, six modes. Oracle: literal's exact value rounded once (value, accuracy, precision 34 if it was 0, base 10); scaled exponent outside int32 => error. (any) literals in base 2/8/16 or with p exponents, one- and two-character mutations of valid literals (deleted/inserted/replaced/duplicated characters, misplaced '_'), short strings over the alphabet of number characters, a list of hostile constants: acceptance and detected base must coincide with math/big Float.Parse (compared when the exponent field is <= 10000 in magnitude), the value must be exact when its decimal expansion fits the precision and within 1 ulp of the correctly rounded value otherwise (exact rational taken from math/big at a precision that makes it exact). (mixed) binary/octal mantissas with fractional digits and a decimal e exponent over the whole int32 range and at its ends: value = exact binary mantissa (math/big) x 10^e with the range rule (underflow to a signed zero, overflow to infinity), exact when representable, 1 ulp otherwise; rejection accepted only within 80 of a range end. (pow2near) decimal mantissas with a p exponent of any size up to +-(2^31-200), constructed from a chosen P-digit number R, exponent k and closeness c as m = floor or ceil(R*10^j/2^k) with P+c digits, so that m*2^k lies 10^-(P+9)..10^-(P+21) (relative) from R*10^j; reference in 700-bit binary floating point; outside the zone of known finding F-43 (closer than 10^-(P+16)) the result must be one of the two neighbours of the exact value. The same rule (a neighbour of the exact value; F-43 zone tolerated) holds for every rounded result of the any and mixed kinds. (expfield) short mantissas with exponent fields at the edges of int64 and int32 (+-2^63, +-(2^63-1), -2^63-1, 2^64, +-2^32, +-2^31, twenty nines, zero-padded fields): a field that does not fit an int64 must be rejected, a zero mantissa with a valid field (e or p) is a signed zero, a non-zero base-10 literal is accepted exactly when its scaled exponent lies in the int32 range; a non-zero mantissa with a p exponent is rejected when the exponent lies outside the int32 range (as math/big does) and otherwise accepted with a value of the right order of magnitude (fields from -2^63 to 2^63-1, +-7.2e9, +-2^32, +-(2^31+100), +-2147483000, +-10^9). Always: no panic, err != nil => returned *Decimal is nil, receiver canonical. Non-trivial = an accepted literal that needs rounding, or a rejected string; distinct by case."
+const ruleC12 = "rapid-generated inputs of three kinds. (dec) base-10 literals of the documented grammar with the value known by construction: sign, digits split around the point anywhere, leading/trailing zeros, '_' separators in legal positions, e/E exponents over the whole int32 range and beyond, up to 600 (quick) / 3000 (thorough) digits with rounding patterns; through Parse, SetString, ParseDecimal, UnmarshalText and Scan (fmt.Sscan with surrounding blanks; fmt.Sscanf with the literal directly followed by -, +, :, comma or / and a second number); receiver precision 0 or 1..80, six modes. Oracle: literal's exact value rounded once (value, accuracy, precision 34 if it was 0, base 10); scaled exponent outside int32 => error. (any) literals in base 2/8/16 or with p exponents, one- and two-character mutations of valid literals (deleted/inserted/replaced/duplicated characters, misplaced '_'), short strings over the alphabet of number characters, a list of hostile constants: acceptance and detected base must coincide with math/big Float.Parse (compared when the exponent field is <= 10000 in magnitude), the value must be exact when its decimal expansion fits the precision and within 1 ulp of the correctly rounded value otherwise (exact rational taken from math/big at a precision that makes it exact). (mixed) binary/octal mantissas with fractional digits and a decimal e exponent over the whole int32 range and at its ends: value = exact binary mantissa (math/big) x 10^e with the range rule (underflow to a signed zero, overflow to infinity), exact when representable, 1 ulp otherwise; rejection accepted only within 80 of a range end. (pow2near) decimal mantissas with a p exponent of any size up to +-(2^31-200), constructed from a chosen P-digit number R, exponent k and closeness c as m = floor or ceil(R*10^j/2^k) with P+c digits, so that m*2^k lies 10^-(P+9)..10^-(P+21) (relative) from R*10^j; reference in 700-bit binary floating point; closeness 10^-(P+9)..10^-(P+21), one case in four 10^-(P+22)..10^-(P+100) (beyond any fixed number of guard digits); the result must be one of the two neighbours of the exact value. The same rule holds for every rounded result of the any and mixed kinds. (expfield) short mantissas with exponent fields at the edges of int64 and int32 (+-2^63, +-(2^63-1), -2^63-1, 2^64, +-2^32, +-2^31, twenty nines, zero-padded fields): a field that does not fit an int64 must be rejected, a zero mantissa with a valid field (e or p) is a signed zero, a non-zero base-10 literal is accepted exactly when its scaled exponent lies in the int32 range; a non-zero mantissa with a p exponent is rejected when the exponent lies outside the int32 range (as math/big does) and otherwise accepted with a value of the right order of magnitude (fields from -2^63 to 2^63-1, +-7.2e9, +-2^32, +-(2^31+100), +-2147483000, +-10^9). Always: no panic, err != nil => returned *Decimal is nil, receiver canonical. Non-trivial = an accepted literal that needs rounding, or a rejected string; distinct by case."
 
 var propC12 = &h.Prop[C12Case]{ID: "C12", Rule: ruleC12, Gen: genC12, Check: checkC12, Matchers: map[string]func(C12Case) bool{}}
 
